@@ -276,6 +276,11 @@ func encodeDesc(d desc) []byte {
 		lo = 0xBF800000 | d.op<<16 | f["simm16"]
 	case "vop2":
 		lo = d.op<<25 | f["vdst"]<<17 | f["vsrc1"]<<9 | f["src0"]
+		if f["sdwa"] == 1 { // SRC0 = 249 selects the SDWA dword (GFX9 VOP_SDWA layout: S0 = bit 23, S1 = bit 31)
+			lo = d.op<<25 | f["vdst"]<<17 | f["vsrc1"]<<9 | 249
+			hi = f["s1"]<<31 | f["src1sel"]<<24 | f["s0"]<<23 | f["src0sel"]<<16 | f["dstunused"]<<11 | f["dstsel"]<<8 | f["src0"]
+			two = true
+		}
 	case "vop1":
 		lo = 0x7E000000 | f["vdst"]<<17 | d.op<<9 | f["src0"]
 	case "vopc":
@@ -293,7 +298,7 @@ func encodeDesc(d desc) []byte {
 		hi = f["vdst"]<<24 | f["data1"]<<16 | f["data0"]<<8 | f["addr"]
 		two = true
 	case "vop3a":
-		lo = 0xD0000000 | d.op<<16 | f["clamp"]<<15 | f["abs"]<<8 | f["vdst"]
+		lo = 0xD0000000 | d.op<<16 | f["clamp"]<<15 | f["opsel"]<<11 | f["abs"]<<8 | f["vdst"]
 		hi = f["neg"]<<29 | f["omod"]<<27 | f["src2"]<<18 | f["src1"]<<9 | f["src0"]
 		two = true
 	case "vop3b":
